@@ -10,6 +10,7 @@ import inspect
 import itertools
 import re
 import signal
+import time
 
 import numpy as np
 
@@ -60,13 +61,15 @@ def build_pipe(pd, log, fail_key=None, exc_kind="V"):
 class MapFunc:
     """Structural map function of harness/mapsym.py (same values), failing by call string, logging to `log`."""
 
-    def __init__(self, fd, log, fail_key=None, exc_kind="V"):
+    def __init__(self, fd, log, fail_key=None, exc_kind="V", slow=(), delay=0.0):
         self.name, self.params, self.outs = fd["name"], list(fd["params"]), list(fd["outs"])
         self.ish = tuple(fd.get("ret") if fd.get("ret") is not None else fd.get("int") or ())
         self.aslist = bool(fd.get("intlist", False))
         self.log = log
         self.fail_key = fail_key
         self.exc_kind = exc_kind
+        self.slow = frozenset(slow)          # call strings of invocations that take `delay` seconds (they return)
+        self.delay = delay
         dflt = dict(fd.get("defaults") or [])
         self.__name__ = self.name
         self.__qualname__ = self.name
@@ -80,6 +83,8 @@ class MapFunc:
         self.log.append(app)
         if self.fail_key is not None and app == self.fail_key:
             raise make_exc(self.exc_kind)
+        if app in self.slow:
+            time.sleep(self.delay)
 
         def value(base):
             if not self.ish:
@@ -109,14 +114,15 @@ def as_closure(mf):
     return body
 
 
-def build_map(case, log, fail_key=None, exc_kind="V", local=False):
-    """local=True: every user function is a non-importable closure (see as_closure)."""
+def build_map(case, log, fail_key=None, exc_kind="V", local=False, slow=(), delay=0.0):
+    """local=True: every user function is a non-importable closure (see as_closure).
+    slow/delay: the invocations with these call strings sleep `delay` seconds before returning."""
     from pipefunc import PipeFunc, Pipeline
 
     funcs = []
     for fd in case["funcs"]:
         outs = fd["outs"]
-        mf = MapFunc(fd, log, fail_key, exc_kind)
+        mf = MapFunc(fd, log, fail_key, exc_kind, slow, delay)
         funcs.append(PipeFunc(
             as_closure(mf) if local else mf,
             output_name=outs[0] if len(outs) == 1 else tuple(outs),
